@@ -90,6 +90,9 @@ class Gen:
       return {'kind': 'other'}
     n = max(0, count + r.choice([-2, -1, 0, 0, 0, 0, 1, 2, 3]))
     sugg = [{'params': self.fresh(), 'md': [self.kv()] if r.random() < 0.3 else []} for _ in range(n)]
+    if len(sugg) >= 2 and r.random() < 0.25:
+      # the same point (parameters and metadata) delivered twice in one decision: still two suggestions
+      sugg[r.randrange(1, len(sugg))] = dict(sugg[0])
     delta = []
     if r.random() < 0.3:
       for _ in range(r.randrange(1, 3)):
